@@ -42,6 +42,7 @@ func main() {
 		out := fs.String("out", "", "")
 		replay := fs.String("replay", "", "")
 		corpus := fs.String("corpus", "", "")
+		repo := fs.String("repo", "/repo", "")
 		fs.Parse(os.Args[2:])
 		d, ok := hx.Lookup(*id)
 		if !ok {
@@ -52,6 +53,7 @@ func main() {
 			panic(err)
 		}
 		ctx := hx.NewCtx(*id, *seed, *tier, *out, *replay, *corpus)
+		ctx.Repo = *repo
 		d(ctx)
 		ctx.Finish()
 	default:
